@@ -263,6 +263,10 @@ func (t *treeCase) membership(rank int, allBits bool) {
 		return
 	}
 	orig := semantic(proof)
+	if rank == 0 {
+		t.c.Sample(map[string]any{"tree": t.desc, "version": t.ver, "size": len(t.snap), "key": vf.Hex(key), "value": vf.Hex(value), "root": vf.Hex(t.root),
+			"proof_bytes": len(marshal(proof)), "inner_ops": len(proof.GetExist().GetPath()), "verifies": true})
+	}
 
 	// altered key / value / root with the untouched proof
 	n := len(t.snap)
@@ -843,4 +847,32 @@ func runTreeCase(c *vf.Ctx, id int, p bpgen.GenParams, fixed int, rng *rand.Rand
 		st.add(func() { st.mutableTreeProofs += 2 })
 	}
 	return !t.bad
+}
+
+// emptyValueException observes the documented exception: Set(key, []byte{}) is
+// legal, a membership proof is generated, and ics23 cannot verify it.
+func emptyValueException(c *vf.Ctx, st *stats) {
+	tree := bptree.NewMutableTreeWithDB(memdb.NewMemDB(), 100, bptree.NewNopLogger())
+	defer tree.Close()
+	tree.Set([]byte("a"), []byte("1"))
+	tree.Set([]byte("b"), []byte{})
+	tree.Set([]byte("c"), []byte("3"))
+	if _, _, err := tree.SaveVersion(); err != nil {
+		panic(err)
+	}
+	p, err := tree.GetMembershipProof([]byte("b"))
+	if err != nil {
+		return
+	}
+	var ok bool
+	if pv := vf.Try(func() { ok = ics23.VerifyMembership(bptree.BptreeSpec, tree.Hash(), p, []byte("b"), []byte{}) }); pv != nil || !ok {
+		st.add(func() { st.emptyValueUnprovable++ })
+	}
+	// the neighbours are still provable
+	for _, kv := range [][2]string{{"a", "1"}, {"c", "3"}} {
+		p, err := tree.GetMembershipProof([]byte(kv[0]))
+		if err != nil || !ics23.VerifyMembership(bptree.BptreeSpec, tree.Hash(), p, []byte(kv[0]), []byte(kv[1])) {
+			c.Violation("membership:valid-proof-rejected:next-to-empty-value", map[string]any{"key": kv[0]}, "key %q next to an empty-valued key: proof err=%v or does not verify", kv[0], err)
+		}
+	}
 }
